@@ -833,6 +833,8 @@ def r11_19(ctx) -> None:
 
 
 def run(ctx) -> None:
+    from .c19 import r19_1 as _r19_1
+    ctx.guard_as("R11.23", _r19_1)  # "unpadded base64url": every encoder call of the package is the padding-stripping one
     ctx.guard(r11_22)
     from .c15 import r15_3 as _r15_3
     ctx.guard_as("R11.21", _r15_3)  # "wrong member types are refused": the value validators accept exactly their type
